@@ -63,12 +63,22 @@ def rule_b(ctx):
     news = list(w.calls(r"Runnable::new_unchecked$"))
     if len(rmw) != 1 or len(news) != 1:
         return ctx.missing("fetch_add / Runnable::new_unchecked in Task::wake")
-    want_mask = C["WAKE_MASK"] | C["CLOSED"] | C["POLLING"]
-    ok = False
+    # what the guards on the pre-increment state establish, bit by bit (one combined test or several separate ones)
+    known0 = known1 = 0
     for c in w.conditions(news[0]):
         mc = mask_cmp(c)
-        if mc and mc[0] == "==" and mc[1] == ("call", rmw[0].b, rmw[0].callee) and mc[2] == want_mask and mc[3] == C["POLLING"]:
-            ok = True
+        if not mc or mc[1] != ("call", rmw[0].b, rmw[0].callee):
+            continue
+        op, _, m, v = mc
+        single = m != 0 and m & (m - 1) == 0
+        if op == "==":
+            known1 |= m & v
+            known0 |= m & ~v
+        elif op == "!=" and single and v == 0:
+            known1 |= m
+        elif op == "!=" and single and v == m:
+            known0 |= m
+    ok = (known0 & C["WAKE_MASK"]) == C["WAKE_MASK"] and (known0 & C["CLOSED"]) and (known1 & C["POLLING"]) and not (known0 & known1)
     ctx.ob("wake|schedule-iff-idle-polling", ok,
            "a waker creates a Runnable only when the pre-increment state had wake count 0, POLLING set and CLOSED clear "
            "(at most one Runnable per task)", news)
